@@ -1,0 +1,21 @@
+//go:build verif
+
+package minersc
+
+import "github.com/0chain/common/core/util"
+
+// VerifEntityPrototypes returns, for every type this contract stores in state, a function creating the empty value the
+// way the contract code creates its decode target (verification harness, C08).
+func VerifEntityPrototypes() []func() util.MPTSerializable {
+	return []func() util.MPTSerializable{
+		func() util.MPTSerializable { return &GlobalNode{} },
+		func() util.MPTSerializable { return newGlobalSettings() },
+		func() util.MPTSerializable { return NewMinerNode() },
+		func() util.MPTSerializable { return &MinerNodes{} },
+		func() util.MPTSerializable { return NewDKGMinerNodes() },
+		func() util.MPTSerializable { return &NodeIDs{} },
+		func() util.MPTSerializable { return &PhaseNode{} },
+		func() util.MPTSerializable { return &SimpleNodes{} },
+		func() util.MPTSerializable { return &SimpleNode{} },
+	}
+}
